@@ -132,26 +132,28 @@ Example ex_filter_all_undefined :
   scenario_member [[1; 3]; [2; 3]] 0 [[1; 2]; [3]] = [].
 Proof. reflexivity. Qed.
 
-(* 512 elements: one tuple; 513: split 256 + 257; 600: 300 + 300 *)
-Example ex_aggregate_512 : aggregate (seq 0 512) = Some (Tuple (seq 0 512)).
+(* The aggregate examples are stated relative to the translated constants, so that they keep
+   checking when templates.hpp changes its threshold (with 512 and 2: 512 elements -> one tuple;
+   513 -> 256 + 257; 2*512+34 = 1058 = 2 methods x 23 x 23 -> (264 + 265) + (264 + 265)). *)
+Example ex_aggregate_at_threshold :
+  aggregate (seq 0 aggregate_threshold) = Some (Tuple (seq 0 aggregate_threshold)).
 Proof. vm_compute. reflexivity. Qed.
 
-Example ex_aggregate_513 :
-  aggregate (seq 0 513) = Some (Split (Tuple (seq 0 256)) (Tuple (seq 256 257))).
+Example ex_aggregate_above_threshold :
+  let n := S aggregate_threshold in
+  let k := n / aggregate_split_den in
+  aggregate (seq 0 n) = Some (Split (Tuple (seq 0 k)) (Tuple (seq k (n - k)))).
 Proof. vm_compute. reflexivity. Qed.
 
-Example ex_aggregate_600 :
-  option_map shape (aggregate (seq 0 600)) = Some [2; 300; 300]
-  /\ option_map leaves (aggregate (seq 0 600)) = Some (seq 0 600)
-  /\ option_map (width_leb aggregate_threshold) (aggregate (seq 0 600)) = Some true.
+Example ex_aggregate_two_levels :
+  let n := 2 * aggregate_threshold + 34 in
+  option_map leaves (aggregate (seq 0 n)) = Some (seq 0 n)
+  /\ option_map (width_leb aggregate_threshold) (aggregate (seq 0 n)) = Some true
+  /\ option_map (fun t => 2 <=? depth t) (aggregate (seq 0 n)) = Some true
+  /\ option_map (fun t => length (shape t)) (aggregate (seq 0 n)) = Some 7.
 Proof. vm_compute. repeat split; reflexivity. Qed.
 
-(* two levels of splitting: 2 methods x 23 x 23 = 1058 definitions *)
-Example ex_aggregate_1058 :
-  option_map shape (aggregate (seq 0 1058)) = Some [2; 2; 264; 265; 2; 264; 265]
-  /\ option_map depth (aggregate (seq 0 1058)) = Some 2.
-Proof. vm_compute. split; reflexivity. Qed.
-
-(* the fuel bound is tight enough to matter: with too little fuel the model says so *)
-Example ex_out_of_fuel : aggregate_fuel aggregate_threshold aggregate_split_den 1 (seq 0 600) = None.
+(* the fuel bound matters: with too little fuel the model says so *)
+Example ex_out_of_fuel :
+  aggregate_fuel aggregate_threshold aggregate_split_den 1 (seq 0 (S aggregate_threshold)) = None.
 Proof. vm_compute. reflexivity. Qed.
